@@ -7,7 +7,7 @@ import time
 from facts import VERIF
 
 KNOWN_FILE = os.path.join(VERIF, "known_findings.json")
-EVID_DIR = os.path.join(VERIF, "evidence")
+EVID_DIR = os.environ.get("VERIF_EVIDENCE_DIR") or os.path.join(VERIF, "evidence")
 REPLAY_DIR = os.path.join(EVID_DIR, "replay")
 
 
